@@ -194,7 +194,7 @@ var buildErrRe = regexp.MustCompile(`(?m)^(?:# vb/|)(c\d+)[/\s:]`)
 func c09Build(mod string) (map[string]string, string) {
 	cmd := exec.Command("go", "build", "./...")
 	cmd.Dir = mod
-	cmd.Env = append(goEnv())
+	cmd.Env = goEnv()
 	out, err := cmd.CombinedOutput()
 	bad := map[string]string{}
 	if err == nil {
@@ -238,7 +238,7 @@ func c09Check(env *ex.Env, mod, name string, c c09Case) string {
 func c09BuildOne(mod, name string) (string, string) {
 	cmd := exec.Command("go", "build", "./"+name+"/...")
 	cmd.Dir = mod
-	cmd.Env = append(goEnv())
+	cmd.Env = goEnv()
 	out, err := cmd.CombinedOutput()
 	if err == nil {
 		return "", ""
